@@ -34,3 +34,26 @@ H_ENTRY(h_skc) {
   vf_assert(vfh_exc == 0 && ok, "honest shuffle-of-known-content argument is accepted");
   H_END();
 }
+
+// C05 for the same argument: one of the transmitted exponents (f_1, f_2, z, f_Delta_1, z_Delta - the values that do not enter
+// a Fiat-Shamir hash, so acceptance is an algebraic fact) is replaced by an arbitrary other value
+H_ENTRY(h_skc_tamper) {
+  GrothSKC *skc = mkskc();
+  std::vector<mpz_ptr> m, mp;
+  for (unsigned i = 0; i < H_NG; ++i) { mpz_ptr x = new mpz_t(); mpz_init(x); vfh_mpz(x, 0, H_Q); m.push_back(x); }
+  std::vector<size_t> pi;
+  if (vf_nondet_u8() & 1) { pi.push_back(0); pi.push_back(1); } else { pi.push_back(1); pi.push_back(0); }
+  Z r, c; vfh_mpz(r, 0, H_Q);
+  for (unsigned i = 0; i < H_NG; ++i) mp.push_back(m[pi[i]]);
+  skc->com->CommitBy(c, r, mp, true);
+  std::stringstream t;
+  skc->Prove_noninteractive(pi, r, m, t);
+  long v[8]; for (unsigned i = 0; i < 8; ++i) { Z x; t >> (mpz_ptr)x; v[i] = x.get(); }
+  unsigned pos = 3 + (unsigned)vf_nondet_below(5);
+  long nv = vfh_range(-2 * H_Q, 3 * H_Q); vf_assume(nv != v[pos]);
+  std::stringstream t2; for (unsigned i = 0; i < 8; ++i) vfh_put(t2, i == pos ? nv : v[i]);
+  bool ok = true; H_TRY(ok = skc->Verify_noninteractive(c, m, t2, false));
+  vf_assert(vfh_exc == 0, "verifier does not throw on an edited argument");
+  if (ok) vf_assert(((nv - v[pos]) % H_Q == 0) && nv < H_Q, "edited exponent accepted only as another representative of the same residue below q");
+  H_END();
+}
